@@ -27,7 +27,10 @@ Put(i, s) == hc' = [j \in (DOMAIN hc) \cup {i} |-> IF j = i THEN s ELSE hc[j]]
 \* big-endian 8-byte encoding of a small sequence number
 Seq8(n) == <<0, 0, 0, 0, (n \div 16777216) % 256, (n \div 65536) % 256, (n \div 256) % 256, n % 256>>
 
-TReset == IsEvent("reset") /\ hc' = <<>>           \* next run: all half connections are new
+\* next run: all half connections are new; nothing of the previous run may be left pending
+\* (a rejected record whose sticky error was never set)
+TReset == IsEvent("reset") /\ (\A i \in DOMAIN hc : ~hc[i].pend) /\ hc' = <<>>
+TEnd == IsEvent("end") /\ (\A i \in DOMAIN hc : ~hc[i].pend) /\ UNCHANGED hc
 TEnc == /\ IsEvent("enc")
         /\ LET s == St(T.hc) IN
            /\ T.seq = s.seq /\ ~s.pend
@@ -44,7 +47,7 @@ TErr == /\ IsEvent("seterr")
         /\ LET s == St(T.hc) IN Put(T.hc, [s EXCEPT !.err = TRUE, !.pend = FALSE])
 
 TraceInit == l = 1 /\ hc = <<>>
-TraceNext == TReset \/ TEnc \/ TDec \/ TCCS \/ TErr
+TraceNext == TReset \/ TEnd \/ TEnc \/ TDec \/ TCCS \/ TErr
 TraceSpec == TraceInit /\ [][TraceNext]_<<l, hc>>
 HighWater == TLCSet(1, IF l > TLCGet(1) THEN l ELSE TLCGet(1))
 Accepted == PrintT(<<"HWM", TLCGet(1), Len(Trace)>>) /\ TLCGet(1) = Len(Trace) + 1
